@@ -2,15 +2,15 @@
 //@ props C07 C08 C01
 //@ kind W
 //@ def all NARR=3 CMSTATE_BITFIELD_CHUNK=64 CMSTATE_BITFIELD_INT32_SIZE=2
-//@ cbmc all --unwind 6 --unwindset CMStateSet_getBitCountInRange.0:33,CMStateSet_getBitCountInRange.2:33 --unwinding-assertions
+//@ cbmc all --unwind 6 --unwinding-assertions
 //@ entry h_cm_stateset_ops
-//@ note W: CMStateSet (the position sets of the followpos construction) as a bit set: setBit / getBit / zeroBits / isEmpty / operator|= / operator== / getBitCountInRange on `this` = harness object A and operand B, both representations: cached (fBitCount <= 128: four words) and dynamic (NARR on-demand chunks of CMSTATE_BITFIELD_INT32_SIZE words; fBitCount in ((NARR-1)*chunk, NARR*chunk]), loops fully unwound; the one-object methods are also covered (C01) by unit cm_stateset
+//@ note W: CMStateSet (the position sets of the followpos construction) as a bit set: setBit / getBit / zeroBits / isEmpty / operator|= / operator== on `this` = harness object A and operand B, both representations: cached (fBitCount <= 128: four words) and dynamic (NARR on-demand chunks of CMSTATE_BITFIELD_INT32_SIZE words; fBitCount in ((NARR-1)*chunk, NARR*chunk]), loops fully unwound; the one-object methods are also covered (C01) by unit cm_stateset
 //@ note abstraction function written from the member documentation: bit i of a cached set is bit i%32 of fBits[i/32]; of a dynamic set bit i%32 of word (i%1024)/32 of chunk fBitArray[i/1024], an unallocated chunk (null) holds no bits
 //@ note R13-style rebinding: the chunk size CMSTATE_BITFIELD_CHUNK (1024 bits in /repo) / CMSTATE_BITFIELD_INT32_SIZE (1024/32) is rebound to 64 bits / 2 words by -D (the copied #defines are wrapped in #ifndef); the code is assumed parametric in the chunk size (it uses the two names and the word size 32 only); with the real size the fully symbolic |= does not finish in the budget
 //@ note the portable branch is verified: the #ifdef XERCES_HAVE_SSE2_INTRINSIC branches (taken in the pinned build when the CPU has SSE2) are not in the C subset
 //@ note chunk allocation (MemoryManager::allocate / deallocate) hands out / takes back separate harness objects of exactly one chunk; references `XMLInt32*& x = slot` that are only read become pointer copies
-//@ note getBitCountInRange is checked for memory safety only: it has no documented meaning (word-granular in the cached form, chunk-granular in the dynamic form) and its only caller (buildDFA) uses it as a cost heuristic
-//@ note NOT in scope: constructors / destructor / operator= / hashCode, CMStateSetEnumerator, buildDFA / followpos construction (the users of this class)
+//@ note getBitCountInRange is NOT covered: it has no documented meaning (word-granular in the cached form, chunk-index-granular in the dynamic form), its only caller (buildDFA) uses it as a cost heuristic, and its 32-bit inner loops over a symbolic start word did not finish in the budget (185 s for memory safety alone)
+//@ note NOT in scope: constructors / destructor / operator= / hashCode / getBitCountInRange, CMStateSetEnumerator, buildDFA / followpos construction (the users of this class)
 #define VERIF_DEFINE_GHOSTS
 #include "verif_prelude.h"
 //@ define src/xercesc/validators/common/CMStateSet.hpp CMSTATE_CACHED_INT32_SIZE
@@ -57,10 +57,6 @@ call deallocateChunk => CMStateSet_deallocateChunk
 sub (?<![\w.>])(fBits|fBitCount|fDynamicBuffer)\b => A.\1
 @*/
 /*@extract src/xercesc/validators/common/CMStateSet.hpp CMStateSet::isEmpty
-inclass
-sub (?<![\w.>])(fBits|fBitCount|fDynamicBuffer)\b => A.\1
-@*/
-/*@extract src/xercesc/validators/common/CMStateSet.hpp CMStateSet::getBitCountInRange
 inclass
 sub (?<![\w.>])(fBits|fBitCount|fDynamicBuffer)\b => A.\1
 @*/
@@ -131,13 +127,13 @@ static int abs_same(const struct CMStateSet *x, const struct CMStateSet *y)
 
 void h_cm_stateset_ops(void)
 {
-  XMLSize_t bits, b, G, start, end; _Bool a0, a1, a2, b0, b1, b2, dyn; int op;
+  XMLSize_t bits, b, G; _Bool a0, a1, a2, b0, b1, b2, dyn; int op;
   VERIF_INPUT(A); VERIF_INPUT(B); VERIF_INPUT(CA0); VERIF_INPUT(CA1); VERIF_INPUT(CA2); VERIF_INPUT(CB0); VERIF_INPUT(CB1); VERIF_INPUT(CB2); VERIF_INPUT(CN0); VERIF_INPUT(CN1); VERIF_INPUT(CN2);
-  VERIF_INPUT(bits); VERIF_INPUT(b); VERIF_INPUT(G); VERIF_INPUT(start); VERIF_INPUT(end); VERIF_INPUT(op);
+  VERIF_INPUT(bits); VERIF_INPUT(b); VERIF_INPUT(G); VERIF_INPUT(op);
   VERIF_INPUT(a0); VERIF_INPUT(a1); VERIF_INPUT(a2); VERIF_INPUT(b0); VERIF_INPUT(b1); VERIF_INPUT(b2); VERIF_INPUT(dyn);
   VERIF_ASSUME(dyn ? (bits > (NARR - 1) * CMSTATE_BITFIELD_CHUNK && bits <= NARR * CMSTATE_BITFIELD_CHUNK) : (bits >= 1 && bits <= CMSTATE_CACHED_INT32_SIZE * 32));
   VERIF_ASSUME(G < bits);                    /* ghost index: any bit position */
-  VERIF_ASSUME(op >= 0 && op <= 6);
+  VERIF_ASSUME(op >= 0 && op <= 5);
   mk_set(&A, &DA, ARRA.a, &CA0, &CA1, &CA2, bits, a0, a1, a2);
   mk_set(&B, &DB, ARRB.a, &CB0, &CB1, &CB2, bits, b0, b1, b2);      /* operands of |= and == have the same bit count (callers: sets over the same leaf positions) */
   NALLOC = 0; NFREE = 0; ALLOC_BAD = 0; FREE_BAD = 0; verif_thrown = 0;
@@ -168,10 +164,6 @@ void h_cm_stateset_ops(void)
   } else if (op == 5) {
     bool r = CMStateSet_equals(&B);
     __CPROVER_assert(!verif_thrown && (r != 0) == (abs_same(&A, &B) != 0), "C07/C08: operator== holds iff the two sets have the same members");
-  } else {
-    VERIF_ASSUME(start <= end && end <= bits);
-    XMLSize_t r = CMStateSet_getBitCountInRange(start, end);
-    __CPROVER_assert(!verif_thrown && r <= 32 * CMSTATE_BITFIELD_INT32_SIZE * NARR, "C01: getBitCountInRange stays inside the representation");
   }
   __CPROVER_assert(!ALLOC_BAD, "C01: chunks are requested with the chunk size, one per missing chunk");
 }
